@@ -90,6 +90,61 @@ pub fn oracle(seed: u64, tier: &str) -> Vec<Report> {
             check(&mut r, &[*a, *b, *c]);
         } } }
     }
+    // mixfix operands: BETWEEN bounds, LIKE patterns, NOT, unary sign stop at their documented level
+    {
+        use sqlparser::dialect::Precedence;
+        fn mshape(e: &Expr) -> Option<String> {
+            match e {
+                Expr::BinaryOp { left, right, .. } => Some(format!("({} {})", mshape(left)?, mshape(right)?)),
+                Expr::Identifier(i) => Some(i.value.clone()),
+                Expr::Between { expr, low, high, .. } => Some(format!("(between {} {} {})", mshape(expr)?, mshape(low)?, mshape(high)?)),
+                Expr::Like { expr, pattern, .. } | Expr::ILike { expr, pattern, .. } | Expr::SimilarTo { expr, pattern, .. } => Some(format!("(like {} {})", mshape(expr)?, mshape(pattern)?)),
+                Expr::UnaryOp { expr, .. } => Some(format!("(un {})", mshape(expr)?)),
+                Expr::IsNull(e) | Expr::IsNotNull(e) | Expr::IsTrue(e) | Expr::IsFalse(e) => Some(format!("(is {})", mshape(e)?)),
+                Expr::IsDistinctFrom(a, b) | Expr::IsNotDistinctFrom(a, b) => Some(format!("(isd {} {})", mshape(a)?, mshape(b)?)),
+                _ => None,
+            }
+        }
+        fn pshape(d: &dyn Dialect, sql: &str) -> Option<String> {
+            match parse(d, Opts::DEFAULT, sql) {
+                G::Val(Ok(v)) if v.len() == 1 => match &v[0] {
+                    Statement::Query(q) => match &*q.body {
+                        SetExpr::Select(s) if s.projection.len() == 1 => match &s.projection[0] { sqlparser::ast::SelectItem::UnnamedExpr(e) => mshape(e), _ => None },
+                        _ => None,
+                    },
+                    _ => None,
+                },
+                _ => None,
+            }
+        }
+        for (dn, d) in &ds {
+            let d = d.as_ref();
+            let mut ops: Vec<(&str, u8)> = vec![];
+            for op in OPS { if parse_shape(d, &format!("SELECT a {op} b")).as_deref() == Some("(a b)") { if let Some(p) = prec_of(d, op) { ops.push((op, p)); } } }
+            let (pb, pl, pn, pm, pis) = (d.prec_value(Precedence::Between), d.prec_value(Precedence::Like), d.prec_value(Precedence::UnaryNot), d.prec_value(Precedence::MulDivModOp), d.prec_value(Precedence::Is));
+            for (op, p) in &ops {
+                let mut cases: Vec<(String, String)> = vec![];
+                // a BETWEEN b AND c OP d : the upper bound absorbs OP iff OP binds tighter than BETWEEN
+                cases.push((format!("SELECT a BETWEEN b AND c {op} d"), if *p > pb { "(between a b (c d))".into() } else { "((between a b c) d)".into() }));
+                // a BETWEEN b OP c AND d : the lower bound is parsed at BETWEEN's level, so a looser OP is a syntax error (skipped) or absorbed
+                if *p > pb { cases.push((format!("SELECT a BETWEEN b {op} c AND d"), "(between a (b c) d)".into())); }
+                // a OP b BETWEEN c AND d
+                cases.push((format!("SELECT a {op} b BETWEEN c AND d"), if *p >= pb { "(between (a b) c d)".into() } else { "(a (between b c d))".into() }));
+                cases.push((format!("SELECT a LIKE b {op} c"), if *p > pl { "(like a (b c))".into() } else { "((like a b) c)".into() }));
+                cases.push((format!("SELECT NOT a {op} b"), if *p > pn { "(un (a b))".into() } else { "((un a) b)".into() }));
+                cases.push((format!("SELECT - a {op} b"), if *p > pm { "(un (a b))".into() } else { "((un a) b)".into() }));
+                cases.push((format!("SELECT a {op} b IS NULL"), if *p >= pis { "(is (a b))".into() } else { "(a (is b))".into() }));
+                cases.push((format!("SELECT a IS DISTINCT FROM b {op} c"), if *p > pis { "(isd a (b c))".into() } else { "((isd a b) c)".into() }));
+                for (sql, want) in cases {
+                    r.evaluations += 1;
+                    match pshape(d, &sql) {
+                        Some(got) => { if got != want { r.fail(format!("mixfix-grouping/{}", sql.replace("SELECT ", "").replace(op, "OP")), dn, Opts::DEFAULT, &sql, format!("got {got}, the documented operand levels give {want} (prec of `{op}` = {p}; Between {pb}, Like {pl}, UnaryNot {pn}, MulDivMod {pm}, Is {pis})")); } }
+                        None => r.count("mixfix/not-parsed-or-outside-shape"),
+                    }
+                }
+            }
+        }
+    }
     // set operations
     let sops = [("UNION", 10u8), ("EXCEPT", 10), ("INTERSECT", 20), ("UNION ALL", 10), ("INTERSECT ALL", 20)];
     fn sshape(e: &SetExpr) -> String {
